@@ -26,6 +26,8 @@ func init() {
 		quietStdio()
 		execRestoreFailsThenSignal(out, syscall.SIGTERM)
 		execRestoreFailsThenSignal(out, syscall.SIGINT)
+		signalsOptionAcrossExec(out, syscall.SIGTERM)
+		signalsOptionAcrossExec(out, syscall.SIGINT)
 		for _, n := range []int{1, 2} {
 			signalAfterReleases(out, n, syscall.SIGTERM)
 			signalAfterReleases(out, n, syscall.SIGINT)
@@ -796,5 +798,53 @@ func readErrAfterExec(out *scenOut, nexec int) {
 	}
 	if !errors.Is(run.err, errInjectedRead) {
 		out.fail(finding{Property: "C04", Class: "new", What: "wrong Run result after an input read error", Input: desc, Expected: "the reader's error", Observed: fmt.Sprint(run.err)})
+	}
+}
+
+// signalsOptionAcrossExec: a program built with WithoutSignals ignores SIGINT / SIGTERM - before
+// an Exec, while its command runs, and AFTER it: taking the terminal back must not switch the
+// signals on that the option switched off.
+func signalsOptionAcrossExec(out *scenOut, sig syscall.Signal) {
+	guard := make(chan os.Signal, 8)
+	signal.Notify(guard, syscall.SIGINT, syscall.SIGTERM)
+	defer signal.Stop(guard)
+	ctl := newRecCtl()
+	fe := &fakeExec{run: func(f *fakeExec) error { return nil }}
+	ctl.onUpdate = func(m tea.Msg, v int) tea.Cmd {
+		if u, ok := m.(userMsg); ok && u.Sender == 9 {
+			return tea.Exec(fe, func(err error) tea.Msg { return execDoneMsg{Tag: "x", Err: err} })
+		}
+		return nil
+	}
+	run := startProgram(ctl, nil, tea.WithInput(nil), tea.WithoutSignals())
+	desc := fmt.Sprintf("WithoutSignals; %v before an Exec, an Exec, %v after it", sig, sig)
+	waitFor(2*time.Second, func() bool { return ctl.log.has("view-exit", "") })
+	time.Sleep(30 * time.Millisecond) // the signal handler goroutine has registered
+	out.record("without-signals-across-exec/"+sig.String(), desc)
+	stillRunning := func(when string) bool {
+		syscall.Kill(syscall.Getpid(), sig)
+		if run.wait(200 * time.Millisecond) {
+			out.fail(finding{Property: "C18", Class: "new", What: "a signal ended a program built with WithoutSignals (" + when + ")", Input: desc,
+				Expected: "the program keeps running", Observed: "Run returned " + errClass(run.err)})
+			return false
+		}
+		return true
+	}
+	if !stillRunning("before any Exec") {
+		return
+	}
+	run.p.Send(userMsg{9, 0})
+	if !waitFor(3*time.Second, func() bool { return ctl.log.has("update-exit", "execdone:x") }) {
+		run.p.Kill()
+		run.wait(3 * time.Second)
+		return
+	}
+	if !stillRunning("after an Exec") {
+		return
+	}
+	run.p.Quit()
+	if !run.wait(3 * time.Second) {
+		run.p.Kill()
+		run.wait(3 * time.Second)
 	}
 }
